@@ -153,7 +153,10 @@ pub fn run(kv: &Args) -> i32 {
                     hex_of_scalar(&x), point_hex(&base), point_hex(&t2), hex_of_scalar(&s2), point_hex(&y2)));
             }
             // implementation-only oracle: the property itself
-            let expect = if kind == "honest" { Some(1) }
+            // a "mutation" that changes nothing (e.g. session id and action swapped when both are empty) is the honest case
+            let unchanged = t2 == t && s2 == proof.s && y2 == y && b2 == base && c2.sid == ctx.sid && c2.party == ctx.party
+                && c2.action == ctx.action && c2.label == ctx.label;
+            let expect = if kind == "honest" || unchanged { Some(1) }
                 else if bool::from(x.is_zero()) || base == ProjectivePoint::IDENTITY { None }   // identity statement: equation does not involve the challenge
                 else { Some(0) };
             if let Some(e) = expect {
